@@ -39,7 +39,7 @@ P = {
    text="Restart equivalence on the model: at every block boundary all ledger views equal the committed state and a restart loses only allDelegs, limiter (both recomputed by the next BeginBlock before use) and lastValidators. The full statement is false in the code as in the model (lastValidators is not persisted: proved witness; known finding), the partial theorem states exactly what is preserved.",
    note="Trusted: Lean kernel; model validated differentially with restart operations (real side: data directory copied and reopened); app hashes are functions of committed ledgers whose IAVL roots are not modelled. Partial: restart_equiv only up to lastValidators.",
    tech="Lean 4 boundary-coherence invariant + witness of the non-persisted validator list + differential correspondence + restarted-vs-continuous replica monitor"),
- "C10": dict(args=["-restarts", "-evm"], facts=[],
+ "C10": dict(args=["-restarts", "-evm"], facts=[], extra_streams=[{"name": "commit", "args": ["-prop", "C10"], "timeout_quick": 900, "timeout_thorough": 3400}],
    text="Merge-diff correctness of the validator-update computation (applying the updates to the old address-sorted set yields the new one), well-formedness for Tendermint's acceptance rules, sortedness/uniqueness of the orders used, and the step relation between the reported list and the selected top-N of eligible committed delegatees. Known deviations (list starts empty at genesis and after restart; zero-power delegatees; emptying the set) are proved witnesses and known findings.",
    note="Trusted: Lean kernel; model validated differentially; Tendermint's UpdateWithChangeSet transcribed in the proofs file and in tmsim. Partial: the fold-from-genesis statement holds only from the reported list (which starts empty).",
    tech="Lean 4 functional-induction proof of the merge diff + Tendermint acceptance spec + differential correspondence + tmsim fold monitor"),
@@ -79,7 +79,7 @@ for pid, c in P.items():
     cfg = {
         "props_module": "RigoProps." + pid,
         "level": "proof",
-        "streams": [{"name": "app", "args": ["-prop", pid] + c["args"], "timeout_quick": 900, "timeout_thorough": 3400}],
+        "streams": [{"name": "app", "args": ["-prop", pid] + c["args"], "timeout_quick": 900, "timeout_thorough": 3400}] + c.get("extra_streams", []),
         "facts": c["facts"],
         "trusted_base": [KERNEL, MODEL, PARAMS, MON],
         "assumptions": [c["note"]],
